@@ -19,7 +19,7 @@ import (
 
 var gasSet = []uint64{0, 1, 20999, 21000, 100000, 2000000}
 
-const deepGas = uint64(100000000000000) // 1e14: enough to reach call depth 1025 under the 63/64 rule even with x30 prices
+const deepGas = uint64(10000000000000000) // 1e16: enough to reach call depth 1025 under the 63/64 rule even with x30 prices
 
 // pickGas: mostly the two useful limits, sometimes the starving ones.
 func pickGas(rng *rand.Rand) uint64 {
@@ -1202,11 +1202,13 @@ func genGasWrap(add func(Case)) {
 		op            byte
 		k, base, perB uint64
 		gas           uint64
+		site          string
 	}
 	specs := []spec{
-		{opCALLDATACOPY, 3, 0, 0, 100000}, {opCODECOPY, 3, 0, 0, 100000}, {opEXTCODECOPY, 3, 0, 0, 100000}, {opRETURNDATACOPY, 3, 0, 0, 100000}, {opMCOPY, 3, 0, 0, 100000},
-		{opKECCAK, 6, 0, 0, 100000}, {opCREATE2, 6, 0, 0, 2000000},
-		{0xa0, 0, 375, 8, 100000}, {0xa1, 0, 750, 8, 100000}, {0xa2, 0, 1125, 8, 100000}, {0xa3, 0, 1500, 8, 100000}, {0xa4, 0, 1875, 8, 100000},
+		{opCALLDATACOPY, 3, 0, 0, 100000, "memoryCopierGas"}, {opCODECOPY, 3, 0, 0, 100000, "memoryCopierGas"}, {opEXTCODECOPY, 3, 0, 0, 100000, "memoryCopierGas"},
+		{opRETURNDATACOPY, 3, 0, 0, 100000, "memoryCopierGas"}, {opMCOPY, 3, 0, 0, 100000, "memoryCopierGas"},
+		{opKECCAK, 6, 0, 0, 100000, "gasSha3"}, {opCREATE2, 6, 0, 0, 2000000, "gasCreate2"},
+		{0xa0, 0, 375, 8, 100000, "makeGasLog"}, {0xa1, 0, 750, 8, 100000, "makeGasLog"}, {0xa2, 0, 1125, 8, 100000, "makeGasLog"}, {0xa3, 0, 1500, 8, 100000, "makeGasLog"}, {0xa4, 0, 1875, 8, 100000, "makeGasLog"},
 	}
 	for _, s := range specs {
 		w, length, ok := wrapParams(s.k, s.base, s.perB)
@@ -1239,11 +1241,7 @@ func genGasWrap(add func(Case)) {
 			default: // LOGn
 				args[0], args[1] = bigU(off), bigU(ln)
 			}
-			tag := info.name
-			if variant != 0 {
-				tag = ""
-			}
-			add(Case{Fam: "gaswrap", Tag: tag, Code: probe(s.op, args, nil, nil), Gas: s.gas})
+			add(Case{Fam: "gaswrap", Tag: info.name, Site: s.site, Code: probe(s.op, args, nil, nil), Gas: s.gas})
 		}
 	}
 }
